@@ -185,6 +185,63 @@ type RegCfg struct {
 	As     []string `json:"as"`
 	Params []Param  `json:"params"`
 	Kind   string   `json:"kind,omitempty"` // function-value kind: "", closure, method, generic, makefunc
+	Rm     []int    `json:"rm,omitempty"`   // outputs removed from the collection again right after the Add call
+}
+
+// outIdent is the (type, key) identity of output o (1-based) of a registration, for the forms whose outputs
+// are plain or named services (group members cannot be removed individually)
+func outIdent(r *RegCfg, o int) (reflect.Type, any, bool) {
+	name := func() any {
+		if r.Name != "-" && r.Name != "" {
+			return r.Name
+		}
+		return nil
+	}
+	switch r.Shape {
+	case "ctor", "ctorerr", "inst":
+		if r.Group != "-" && r.Group != "" {
+			return nil, nil, false
+		}
+		if len(r.As) > 0 {
+			if o < 1 || o > len(r.As) {
+				return nil, nil, false
+			}
+			return typeByName(r.As[o-1]), name(), true
+		}
+		return typS[r.Slot], name(), o == 1
+	case "multi", "multierr":
+		if r.Group != "-" && r.Group != "" {
+			return nil, nil, false
+		}
+		if o == 1 {
+			return typS[r.Slot], name(), true
+		}
+		return typS[r.Slot2], nil, o == 2
+	case "outkn":
+		if o == 1 {
+			return typS[r.Slot], nil, true
+		}
+		return typS[r.Slot2], "k", o == 2
+	case "outkg":
+		return typS[r.Slot], nil, o == 1
+	}
+	return nil, nil, false
+}
+
+// applyRemovals takes the listed outputs of r out of the collection again
+func applyRemovals(c godi.Collection, r *RegCfg) error {
+	for _, o := range r.Rm {
+		t, k, ok := outIdent(r, o)
+		if !ok {
+			return fmt.Errorf("reg %s: output %d cannot be removed", r.ID, o)
+		}
+		if k == nil {
+			c.Remove(t)
+		} else {
+			c.RemoveKeyed(t, k)
+		}
+	}
+	return nil
 }
 
 type Fault struct {
@@ -952,7 +1009,7 @@ func doOp(o *Op) {
 		protect(ret, func() {
 			t := typeByName(o.T)
 			if o.Op == "group" {
-				vs, err := tg.GetGroup(t, o.G)
+				vs, err := getGroupVia(tg, o.T, t, o.G)
 				ret["err"] = classify(err)
 				if err == nil {
 					r := M{"k": "inst", "ids": []int{}, "s": "-"}
@@ -973,9 +1030,9 @@ func doOp(o *Op) {
 			var v any
 			var err error
 			if o.K != "" && o.K != "-" {
-				v, err = tg.GetKeyed(t, o.K)
+				v, err = getKeyedVia(tg, o.T, t, o.K)
 			} else {
-				v, err = tg.Get(t)
+				v, err = getVia(tg, o.T, t)
 			}
 			ret["err"] = classify(err)
 			if err == nil {
@@ -1044,6 +1101,9 @@ func doOp(o *Op) {
 				svc, err := serviceValue(r)
 				if err == nil {
 					err = addReg(c, r, svc)
+				}
+				if err == nil {
+					err = applyRemovals(c, r)
 				}
 				if err != nil {
 					emit(M{"ev": "adderr", "reg": r.ID, "err": classify(err), "msg": err.Error()})
